@@ -15,9 +15,18 @@ Values
 Arithmetic is i32 with the interpreter's failure conditions (overflow, zero divisor, MIN / -1): an overflowing operation ends the
 path as a failure in BOTH executors - what the arithmetic itself yields is C05's business, here it only has to be the same on
 both sides."""
+import time
 import z3
 
 I32_MIN, I32_MAX = -(1 << 31), (1 << 31) - 1
+_BV = z3.BitVecSort(32)
+U_MUL = z3.Function("u_mul", _BV, _BV, _BV)
+U_MUL_OVF = z3.Function("u_mul_ovf", _BV, _BV, z3.BoolSort())
+U_ADD_OVF = z3.Function("u_add_ovf", _BV, _BV, z3.BoolSort())
+U_SUB_OVF = z3.Function("u_sub_ovf", _BV, _BV, z3.BoolSort())
+U_NEG_OVF = z3.Function("u_neg_ovf", _BV, z3.BoolSort())
+U_DIV = z3.Function("u_div", _BV, _BV, _BV)
+U_REM = z3.Function("u_rem", _BV, _BV, _BV)
 
 
 class Fail(Exception):
@@ -30,6 +39,10 @@ class Fail(Exception):
 
 class Unsupported(Exception):
     """the executor met something it has no semantics for: the check is inconclusive, never a pass"""
+
+
+class Deadline(Exception):
+    """per-program time budget used up: undecided, never a pass"""
 
 
 class OutOfBound(Exception):
@@ -162,6 +175,8 @@ class Oracle:
         self.steps += 1
         if self.steps > self.ex.max_steps:
             raise OutOfBound("step bound")
+        if self.ex.deadline and (self.steps & 63) == 0 and time.time() > self.ex.deadline:
+            raise Deadline()
 
 
 class Explorer:
@@ -173,6 +188,7 @@ class Explorer:
         self.queries = 0
         self.unknowns = 0
         self.work = []
+        self.deadline = None
 
     def explore(self, run):
         """run(oracle) -> return value; -> list of dict(pc, status, out, ret, detail)"""
@@ -226,18 +242,28 @@ def arith(o, op, a, b):
             raise Fail("arith", "overflow")
         return r
     x, y = bv(a), bv(b)
+    both = is_sym(a) and is_sym(b)
     if op == "+":
-        _ovf_guard(o, z3.And(z3.BVAddNoOverflow(x, y, True), z3.BVAddNoUnderflow(x, y)), "overflow")
+        # symbolic + symbolic: the sum is exact, the overflow condition is an uninterpreted predicate of the operands (chains of
+        # exact overflow guards over several inputs cost seconds per query; both executors share the abstraction)
+        _ovf_guard(o, z3.Not(U_ADD_OVF(x, y)) if both else z3.And(z3.BVAddNoOverflow(x, y, True), z3.BVAddNoUnderflow(x, y)), "overflow")
         return z3.simplify(x + y)
     if op == "-":
-        _ovf_guard(o, z3.And(z3.BVSubNoOverflow(x, y), z3.BVSubNoUnderflow(x, y, True)), "overflow")
+        _ovf_guard(o, z3.Not(U_SUB_OVF(x, y)) if both else z3.And(z3.BVSubNoOverflow(x, y), z3.BVSubNoUnderflow(x, y, True)), "overflow")
         return z3.simplify(x - y)
     if op == "*":
+        if is_sym(a) and is_sym(b):
+            # symbolic x symbolic multiplication stalls a bit-blasting solver: both executors share this abstraction
+            # (uninterpreted product and overflow predicate), which is sound for deciding that they behave alike
+            _ovf_guard(o, z3.Not(U_MUL_OVF(x, y)), "overflow")
+            return U_MUL(x, y)
         _ovf_guard(o, z3.And(z3.BVMulNoOverflow(x, y, True), z3.BVMulNoUnderflow(x, y)), "overflow")
         return z3.simplify(x * y)
     if op in ("/", "%"):
         _ovf_guard(o, y != 0, "zero divisor")
         _ovf_guard(o, z3.Not(z3.And(x == z3.BitVecVal(I32_MIN, 32), y == z3.BitVecVal(-1, 32))), "overflow")
+        if is_sym(b):
+            return (U_DIV if op == "/" else U_REM)(x, y)      # symbolic divisor: uninterpreted quotient / remainder
         return z3.simplify(x / y if op == "/" else z3.SRem(x, y))
     raise Unsupported("operator " + op)
 
@@ -258,7 +284,7 @@ def negate(o, a):
         if a == I32_MIN:
             raise Fail("arith", "overflow")
         return -a
-    _ovf_guard(o, a != z3.BitVecVal(I32_MIN, 32), "overflow")
+    _ovf_guard(o, z3.Not(U_NEG_OVF(a)), "overflow")
     return z3.simplify(-a)
 
 
@@ -284,11 +310,17 @@ def equals(a, b):
     if is_int(a) and is_int(b):
         if not is_sym(a) and not is_sym(b):
             return a == b
-        return z3.simplify(bv(a) == bv(b))
+        x, y = bv(a), bv(b)
+        if x.get_id() > y.get_id():     # `l == r` and `r == l` must become the same term (the VM pops the right operand first)
+            x, y = y, x
+        return x == y
     if is_bool(a) and is_bool(b):
         if isinstance(a, bool) and isinstance(b, bool):
             return a == b
-        return z3.simplify(bl(a) == bl(b))
+        x, y = bl(a), bl(b)
+        if x.get_id() > y.get_id():
+            x, y = y, x
+        return x == y
     if isinstance(a, tuple) and isinstance(b, tuple) and a[0] == "str" and b[0] == "str":
         return a[1] == b[1]
     raise Unsupported("equality of %r and %r" % (a, b))
